@@ -94,10 +94,21 @@ func NewMerger(less func(a, b *sam.Record) bool, src ...*Reader) (*Merger, error
 			continue
 		}
 		rec, err := r.Read()
+		if err != nil && err != io.EOF {
+			return nil, err
+		}
 		readers[i] = reader{id: i, r: r, head: rec, err: err}
 		m.readers[i] = &readers[i]
 	}
 	if m.less != nil {
+		// Inputs without records take no part in the merge.
+		live := m.readers[:0]
+		for _, r := range m.readers {
+			if r.head != nil {
+				live = append(live, r)
+			}
+		}
+		m.readers = live
 		heap.Init((*bySortOrderAndID)(m))
 	}
 
